@@ -143,6 +143,37 @@ func (vc *VC) script(o *Obligation) string {
 		b.WriteString(d)
 		b.WriteByte('\n')
 	}
+	var clabs []string
+	for l := range vc.clauseLabels {
+		clabs = append(clabs, l)
+	}
+	sort.Strings(clabs)
+	for _, lab := range clabs {
+		b.WriteString("(declare-fun |hasclause!" + lab + "| (Fn) Bool)\n")
+		var names []string
+		for n := range vc.fnConsts {
+			names = append(names, n)
+		}
+		sort.Strings(names)
+		for _, n := range names {
+			con := vc.fnConsts[n]
+			if con == nil {
+				continue
+			}
+			has := "false"
+			for _, c := range con.Requires {
+				if c.Label == lab {
+					has = "true"
+				}
+			}
+			for _, c := range con.Ensures {
+				if c.Label == lab {
+					has = "true"
+				}
+			}
+			b.WriteString("(assert (= (|hasclause!" + lab + "| " + n + ") " + has + "))\n")
+		}
+	}
 	if vc.needNeedsWrite {
 		b.WriteString("(declare-fun needswrite (Fn) Bool)\n")
 		for _, a := range vc.needsWriteAxioms {
